@@ -3,8 +3,20 @@
 import json, sys
 pid = sys.argv[1]
 n = sys.argv[2] if len(sys.argv) > 2 else "3"
-wt = f"/tmp/wt-{pid}-n"
-outd = f"/tmp/neutral/{pid}"
+rnd = sys.argv[3] if len(sys.argv) > 3 else "1"
+wt = f"/tmp/wt-{pid}-n" if rnd == "1" else f"/tmp/wt-{pid}-n{rnd}"
+outd = f"/tmp/neutral/{pid}" if rnd == "1" else f"/tmp/neutral{rnd}/{pid}"
+prior = ""
+if rnd != "1":
+    import glob
+    sums = []
+    for f in sorted(glob.glob(f"/verif/neutral/{pid}/*/meta.json")):
+        try:
+            sums.append(json.load(open(f)).get("summary", ""))
+        except Exception:
+            pass
+    if sums:
+        prior = "Changes already produced in an earlier round (do NOT repeat these or close variants; pick different functions, mechanisms, options or observable effects):\n" + "".join(f"  - {x}\n" for x in sums if x) + "\nThis round, prefer changes around rarely used public options, constructors and entry points of the crates involved (different builder call orders, cloned clients/servers, non-default configuration, alternative transports or runtimes, error and shutdown paths, what happens to inputs just OUTSIDE what the statement quantifies over), and changes of timing, polling, task structure or resource use - always keeping the statement true.\n\n"
 p = [json.loads(l) for l in open('/verif/properties.jsonl') if json.loads(l)['id'] == pid][0]
 print(f"""You are helping test a verification framework for the Rust gRPC library hyperium/tonic (version 0.13.0 snapshot). The framework claims to decide one semantic property of the library and must NEVER raise an alarm on code where that property still holds. Your job is to produce realistic code changes that KEEP the property true, so that we can check the framework stays silent on them.
 
@@ -23,7 +35,7 @@ Task: produce {n} DIFFERENT, independent changes to tonic's library source (unde
   (d) is the kind of change a maintainer really makes: a refactor that restructures the control flow or state machine, a performance change (different buffer growth / reservation / batching / chunking of output, fewer copies, different poll order where order is not promised), a change of behaviour the property leaves open (wording of an error message, which of several allowed status codes or texts is used where the statement allows several, extra or reordered headers that are not constrained, different but legal wire output, stricter or laxer handling of inputs outside what the statement quantifies over), or an additive API change.
 At least two of the {n} changes must alter something OBSERVABLE from outside (bytes on the wire, chunk boundaries, header order, message texts, number of polls/allocations, timing, log output …) in a way the property allows; pure renames are not interesting. Make them as bold as the statement permits: the point is to catch a checker that demands more than the statement says.
 
-For each change i (1..{n}) deliver, under {outd}/n<i>/ :
+{prior}For each change i (1..{n}) deliver, under {outd}/n<i>/ :
   - patch.diff : `git diff` of the change against the worktree's HEAD (apply-able with `git apply` at the repository root).
   - meta.json : {{"property": "{pid}", "summary": "<one line>", "observable_difference": "<what an outside observer can see change, or 'none'>", "why_property_still_holds": "<a careful argument, clause by clause of the statement>", "files": [..], "tests_run": ["<commands you ran and their result>"]}}
 
